@@ -88,7 +88,10 @@ class Scenario:
                 def body():
                     if st["k"] == "env":
                         # the application itself changes the terminal between two uses of a context object
-                        if st["what"] == "echo":
+                        if st["what"] == "sigh":
+                            # the application installs a SIGINT handler of its own inside the context
+                            signal.signal(signal.SIGINT, _app_sigint)
+                        elif st["what"] == "echo":
                             a = termios.tcgetattr(self.slave)
                             a[3] ^= termios.ECHO
                             termios.tcsetattr(self.slave, termios.TCSANOW, a)
@@ -138,7 +141,7 @@ class Scenario:
                         stack.append((kind, obj))
                         rec["reply"] = self.out.replies[-1] if len(self.out.replies) > n0 else [0, 0]
                     elif st["k"] == "op":
-                        kind, obj = stack[-1]
+                        kind, obj = stack[-1 - st.get("on", 0)]     # on=1: the operation is asked of the enclosing context object
                         name = st["name"]
                         if name == "render":
                             # terminal is 5 rows: small / exactly full / taller than the screen (scrolls; with the
@@ -310,6 +313,10 @@ def run_in_thread(fn):
     return box["r"]
 
 
+def _app_sigint(signum, frame):
+    """the application's own SIGINT handler (installed inside a context by some scenarios)"""
+
+
 class C12(TraceCheck):
     pid = "C12"
     # blessed (third party) switches every terminal capability off when NO_COLOR is set, on the pinned tree as well:
@@ -319,7 +326,7 @@ class C12(TraceCheck):
     rule = ("scenarios on real ptys: nestings of <=3 contexts among Input (sigint_event, disable_terminal_start_stop), "
             "FullscreenWindow (hide_cursor), CursorAwareWindow (hide_cursor, keep_last_line), Cbreak, Nonblocking, Termmode (asked to set what tcgetattr reports / ECHO+ICANON off / that with control characters written as ints); "
             "bodies of renders, requests, thread-safe/scheduled triggers; normal exit or an exception after every prefix; renders that raise part-way (a row that is no string; a foreign exception landing at the n-th line executed inside render_to_terminal), the exception then leaving the contexts; "
-            "repeated enter/exit; a real SIGINT sent from another thread during a blocked request (KeyboardInterrupt with "
+            "two Inputs open with the outer one asked; a SIGINT handler of the application's own installed inside an Input; repeated enter/exit; a real SIGINT sent from another thread during a blocked request (KeyboardInterrupt with "
             "sigint_event off, SigIntEvent with it on); main and non-main thread; initial O_NONBLOCK off/on and two initial "
             "tty settings. After every step: termios attributes, O_NONBLOCK, SIGINT handler, signal wake-up fd, number of open "
             "fds and the terminal tokens. Sources: TLC behaviours from Ctx.tla (exhaustive to depth 4 + simulation) + "
@@ -405,6 +412,20 @@ class C12(TraceCheck):
                         yield [init, E("Termmode", tm=tm), E("Cbreak"), X, end]
                         yield [init, E("Cbreak"), E("Termmode", tm=tm), end, X]
                         yield [init, E("Termmode", tm=tm), E("Input", nostart=1), OP("request_key"), X, end]
+                # two Inputs open at once and the OUTER one is asked; a SIGINT handler of the application's own installed
+                # inside an Input's context, then requests
+                for so in (0, 1):
+                    for si in (0, 1):
+                        for end in (X, R):
+                            yield [init, E("Input", sigint=so), E("Input", sigint=si), OP("request", on=1), end, end]
+                            yield [init, E("Input", sigint=so), E("Input", sigint=si, nostart=1), OP("request_key"), OP("request_key", on=1), OP("request"), end, X]
+                    yield [init, E("Input", sigint=so), E("Cbreak"), OP("request", on=1), X, OP("request"), X]
+                if main:
+                    SIGH = {"k": "env", "what": "sigh"}
+                    for end in (X, R):
+                        yield [init, E("Input", sigint=1), SIGH, OP("request"), end]
+                        yield [init, E("Input", sigint=1), OP("request"), SIGH, OP("request_key"), OP("request"), end]
+                        yield [init, E("Cbreak"), E("Input", sigint=1, nostart=1), SIGH, OP("trigger"), end, X]
                 # nested and repeated use
                 for sig in (0, 1):
                     yield [init, E("Input", sigint=sig), E("Input", sigint=1 - sig), OP("request"), X, OP("request"), X]
